@@ -143,6 +143,11 @@ func (p *Proc) Call(op, uuid, name string) (Resp, bool) {
 	return p.call(Req{Op: op, U: uuid, Name: name})
 }
 
+// Rename renames a data instance (RPC-only in DVID).
+func (p *Proc) Rename(uuid, oldname, newname string) (Resp, bool) {
+	return p.call(Req{Op: "rename", U: uuid, Name: oldname, M: newname})
+}
+
 // RawCount returns the number of keys stored under an instance id (whatever the repo says).
 func (p *Proc) RawCount(iid int) int {
 	r, _ := p.call(Req{Op: "rawcount", Ms: iid})
